@@ -148,7 +148,7 @@ impl C09 {
 }
 
 fn v(clause: &str, detail: String) -> Vec<StepViolation> {
-    vec![StepViolation { clause: clause.to_string(), detail, shape: None }]
+    vec![StepViolation { clause: clause.to_string(), detail, shape: None, soft: false }]
 }
 
 const REFUSAL_MSGS: &[&str] = &["error no-db-selected\n", "permission denied\n"];
